@@ -122,8 +122,8 @@ class Lib:
             # <store path> + "/<name>"
             if z3.is_app(t) and t.decl().kind() == z3.Z3_OP_SEQ_CONCAT and t.num_args() == 2 \
                     and t.arg(0).eq(sp) and z3.is_string_value(t.arg(1)) \
-                    and t.arg(1).as_string().startswith("/"):
-                name = t.arg(1).as_string()[1:]
+                    and T.zstr(t.arg(1)).startswith("/"):
+                name = T.zstr(t.arg(1))[1:]
                 if "/" not in name and name:
                     return VPath(A_ROOT, (("lit", name),), pathobj=False)
         return p
